@@ -42,7 +42,8 @@ fn record(ix: &[usize]) -> Parameters {
     // includes offsets near the printed precision (1e-4 degree = 1.7e-6 rad) and calibration-residue sized ones
     let offs = [0.0, PI / 2.0, -PI / 2.0, PI, 0.1234567, -3.0, 5e-5, -3e-6, 2.5e-4];
     let signs: [[i8; 6]; 4] = [[1; 6], [-1, 1, -1, 1, -1, 1], [1, 1, -1, -1, -1, -1], [1, 1, 1, 1, 1, 0]];
-    let dof = if ix[4] == 3 || ix[5] == 1 { 5 } else { 6 };
+    // the zero J6 sign occurs with dof 6 as well as with dof 5
+    let dof = if ix[5] == 1 { 5 } else { 6 };
     let mut s = signs[ix[4]];
     if dof == 5 {
         s[5] = 0;
